@@ -209,7 +209,7 @@ def setSingle (o : Obj) (name : String) (v : AVal) : R Obj :=
     | .text a =>
       if o.policy != "" then
         if o.policy != a then kerr Rsn.invalidField s!"Cannot overwrite the {name} attribute." else pure o
-      else pure { o with policy := a }
+      else pure { o with policy := a, policyGiven := true }
     | _ => ierr "attribute value has no text value"
   else if name == "Sensitive" then
     match v with
